@@ -256,7 +256,9 @@ func tableStats(c *lib.Ctx) map[string]int {
 				count[section]++
 			}
 		}
-		for lean, key := range map[string]string{"fields": "fields", "accesses": "access_facts", "calls": "calls_under_lock", "acquires": "acquisitions", "heldOnEntry": "helpers_with_entry_locks"} {
+		for lean, key := range map[string]string{"fields": "fields", "accesses": "access_facts", "calls": "calls_under_lock", "acquires": "acquisitions", "heldOnEntry": "helpers_with_entry_locks",
+			"sliceSnapshots": "slice_snapshots", "sliceInPlaceWrites": "in_place_slice_writes", "publishedElems": "published_element_types",
+			"elemWrites": "writes_through_elements", "syncOps": "sync_object_operations", "methodTable": "methods_in_table"} {
 			if _, ok := st[key]; !ok {
 				st[key] = count[lean]
 			}
@@ -352,6 +354,12 @@ func Run(c *lib.Ctx) {
 		what := fmt.Sprintf("%s on the shared %s: %s (%d reports in this run)", a.f.kind, a.f.object, a.f.detail, a.count)
 		replay := "# reproduce (race reports go to stderr):\n" + a.r.cmdline + "\n# FINDING kind=" + a.f.kind + " object=" + a.f.object + " class=" + cl + "\n# " + a.f.detail + "\n" + a.f.body
 		fails = append(fails, lib.OracleFail{Class: cl, What: what, Replay: replay})
+	}
+
+	if len(fails) == 0 {
+		methodCoverage(c)
+	} else {
+		c.Extra["method_coverage"] = "not measured: the stress runs reported findings"
 	}
 
 	c.Rule = "one evaluation = one contention workload (many goroutines, random mix of the public operations, documented usage only) on ONE shared instance of an object, " +
